@@ -630,12 +630,8 @@ def exec (st : St) (op : String) : Pm Res := do
   | "dbg" =>
     -- `Debug` lists, in heap order, the slot index and the entry stored there (an `unwrap` on `get_index`)
     pure <| do
-      let mut out := toString s.heap.size
-      for i in s.heap do
-        match s.map[i]? with
-        | some e => out := out ++ s!" {i} {showE e}"
-        | none => throw (.unwrapNone 900)
-      pure (st, out)
+      let l ← s.debugEntries
+      pure (st, l.foldl (fun acc x => acc ++ s!" {x.1} {showE (x.2.1, x.2.2)}") (toString l.length))
   | "deser_unit" =>
     pure <| do
       let s' ← match st.kind with
